@@ -1963,7 +1963,11 @@ func doUpdate(st *state.State, requested []string, updates []update, opts Option
 		if err != nil {
 			return nil, false, nil, err
 		}
-		installTasksets = append(installTasksets, pruningAutoAliasesTs)
+		// every snap may have been skipped (refresh of all snaps with
+		// conflicting changes), do not hand out an empty task set
+		if len(pruningAutoAliasesTs.Tasks()) != 0 {
+			installTasksets = append(installTasksets, pruningAutoAliasesTs)
+		}
 	}
 
 	// wait for the auto-alias prune tasks as needed
@@ -2043,7 +2047,9 @@ func doUpdate(st *state.State, requested []string, updates []update, opts Option
 		if err != nil {
 			return nil, false, nil, err
 		}
-		installTasksets = append(installTasksets, addAutoAliasesTs)
+		if len(addAutoAliasesTs.Tasks()) != 0 {
+			installTasksets = append(installTasksets, addAutoAliasesTs)
+		}
 	}
 
 	for _, up := range alreadySatisfied {
